@@ -67,4 +67,26 @@ def reply (agree holds : Bool) (msg : String) : String :=
 
 def words (line : String) : Toks := (line.splitOn " ").filter (· ≠ "")
 
+def hexVal (c : Char) : Option Nat :=
+  if '0' ≤ c ∧ c ≤ '9' then some (c.toNat - 48)
+  else if 'a' ≤ c ∧ c ≤ 'f' then some (c.toNat - 87)
+  else none
+
+/-- hex string -> list of byte values -/
+def unhex (s : String) : Option (List Nat) :=
+  let rec go : List Char → Option (List Nat)
+    | [] => some []
+    | [_] => none
+    | a :: b :: rest => match hexVal a, hexVal b, go rest with
+      | some x, some y, some r => some ((x * 16 + y) :: r)
+      | _, _, _ => none
+  go s.toList
+
+def hexChar (d : Nat) : Char := Char.ofNat (if d < 10 then 48 + d else 87 + d)
+def hex (l : List Nat) : String := String.ofList (l.flatMap (fun b => [hexChar (b / 16 % 16), hexChar (b % 16)]))
+
+def hexTok : P (List Nat)
+  | [] => none
+  | t :: ts => (unhex (if t == "-" then "" else t)).map (·, ts)
+
 end OpenHTF.Driver
